@@ -57,6 +57,41 @@ def value_cases():
                                           "result": "v1"}, 2 * len(items)
 
 
+CHAINS = {
+    "float64": [("int64", "float64"), ("int64", "str"), ("int32", "float64"), ("float32", "float64"), ("int64", "int8")],
+    "int64": [("float64", "str"), ("float64", "int64"), ("str", "int64"), ("str", "float64"), ("float32", "str"), ("int32", "float64")],
+    "bool": [("int64", "float64"), ("int64", "str"), ("float64", "str")],
+    "str_int": [("int64", "float64"), ("int64", "str"), ("float64", "str")],
+    "str_float": [("float64", "int64"), ("float64", "str")],
+    "date": [("datetime", "date"), ("datetime", "str")],
+    "datetime": [("date", "datetime"), ("date", "str")],
+}
+
+
+def chain_cases():
+    """x.cast(A).cast(B): each step is a cast of its own (a float column cast to Int and back is truncated, an Int
+    column cast to Float and then String prints as a float, a Datetime cast to Date and back is midnight).  The source
+    is referenced once through the table (typed column) and once through `C.`."""
+    from ..ir import family
+    from ..refsem import UNDEF, cast_value
+
+    S0 = {"out": "v0", "verb": "source", "table": "t0"}
+    for src, chains in CHAINS.items():
+        dtype = SRC.get(src, src)
+        for t1, t2 in chains:
+            ok = []
+            for v in VALUE_GRID[src]:
+                w = cast_value(v, family(dtype), t1)
+                if w is UNDEF or cast_value(w, family(t1), t2) is UNDEF:
+                    continue
+                ok.append(v)
+            tb = {"name": "t0", "cols": [["id", "int64"], ["c", dtype]], "rows": [[i + 1, enc(v)] for i, v in enumerate(ok)]}
+            items = [["by_ref", ["cast", ["cast", ["col", {"v": "v0", "n": "c"}], t1], t2]],
+                     ["by_name", ["cast", ["cast", ["col", {"c": "c"}], t1], t2]]]
+            yield f"chain:{src}->{t1}->{t2}", {"tables": [tb], "steps": [S0, {"out": "v1", "verb": "mutate", "in": "v0", "items": items}],
+                                              "result": "v1"}, 2 * len(ok)
+
+
 def doc_table_accepts(src, tgt):
     """The documented conversion table (ColExpr.cast docstring + property statement), encoded independently of
     the code.  True / False, or None where the documentation says nothing (Decimal, Enum, List, Time, Duration,
@@ -150,7 +185,8 @@ class C17(Check):
             "every plain target type: accepted iff the pair is in the documented table (encoded independently from the "
             "docstring) or an implicit conversion, rejection is DataTypeError at construction, result type = target with the "
             "source's constness; (b) value grid: for every accepted executable pair boundary values (negative fractions, "
-            "zero, large magnitudes, numerals with sign / leading zeros / exponent, null) as columns and as literals, plus "
+            "zero, large magnitudes, numerals with sign / leading zeros / exponent, null) as columns and as literals, two-step "
+            "chains x.cast(A).cast(B) incl. round trips A->B->A through a table reference and through C., plus "
             "Hypothesis-generated pipelines containing casts; oracle: reference conversion value on Polars and SQLite. "
             "non-trivial = value negative, fractional, zero-padded or null (every grid mutate contains such values)")
     N = {"quick": 1500, "thorough": 40000}
@@ -187,7 +223,7 @@ class C17(Check):
         for kind, s, t, msg in failures:
             stats.failures.append((f"{kind}|{s}->{t}", {"matrix_pair": [s, t]}, {"kind": kind, "key": f"{s}->{t}", "message": msg, "extra": {}}))
         cells = 0
-        for label, case, ncells in value_cases():
+        for label, case, ncells in itertools.chain(value_cases(), chain_cases()):
             case["_grid"] = label
             out = self.examine(case)
             stats.add(case, out)
